@@ -1,5 +1,6 @@
 import DeltaModel.Vte
 import DeltaModel.Generated.AnsiSgr
+import DeltaModel.Generated.RawLine
 /-!
 Model of `/repo/src/ansi/iterator.rs` (`AnsiElementIterator`, `ansi_term_style_from_sgr_parameters`)
 and `/repo/src/ansi/mod.rs` (`strip_ansi_codes`, `measure_text_width`, `truncate_str_impl`,
@@ -361,6 +362,13 @@ def gitDefaultMinus : Style :=
   { fg := some (mkColor Generated.gitDefaultMinusFg.1 Generated.gitDefaultMinusFg.2) }
 def gitDefaultPlus : Style :=
   { fg := some (mkColor Generated.gitDefaultPlusFg.1 Generated.gitDefaultPlusFg.2) }
+
+/-- `maybe_raw_line(..).is_some()` (src/handlers/hunk.rs): is the hunk line kept with its input
+colouring? The boolean combination is `Generated.emitRawLine`, read from the source on every run.
+`styles` = the `non_raw_styles` of the caller: `[GIT_DEFAULT_MINUS_STYLE, config.git_minus_style]`
+for removed lines, the PLUS pair for added lines, `[]` for unchanged lines. -/
+def keepsRawLine (wordDiff inspect styleIsRaw : Bool) (raw : Bytes) (styles : List Style) : Bool :=
+  Generated.emitRawLine wordDiff inspect (lineHasStyleOtherThan raw styles) styleIsRaw
 
 /-- `ansi_preserving_slice` -/
 def preservingSliceGo (s : Bytes) (start : Nat) : Nat → List Element → Except String Bytes
